@@ -124,7 +124,8 @@ impl Matrix {
     }
     /// cost of connecting a left word with right-id `r` to a right word with left-id `l`
     pub fn cost(&self, r_of_left: usize, l_of_right: usize) -> i32 {
-        self.cells[r_of_left * self.nl + l_of_right] as i32
+        // text line "a b c": a = right id of the left word (< num_left), b = left id of the right word
+        self.cells[l_of_right * self.nl + r_of_left] as i32
     }
 }
 
